@@ -450,6 +450,16 @@ func (w *xw) text(val string) string {
 	if w.whitespace && w.r.Chance(20) && val != "" && !strings.Contains(val, "]]>") && strings.TrimSpace(val) == val {
 		return "<![CDATA[" + val + "]]>"
 	}
+	// character data may reach a decoder in several pieces: a comment or a CDATA boundary in the middle of a text
+	if w.comments && w.r.Chance(25) && len(val) >= 2 {
+		rs := []rune(val)
+		k := 1 + w.r.Intn(len(rs)-1)
+		a, b := string(rs[:k]), string(rs[k:])
+		if w.r.Bool() || strings.Contains(a, "]]>") {
+			return xwEsc(a, false) + "<!-- c -->" + xwEsc(b, false)
+		}
+		return "<![CDATA[" + a + "]]>" + xwEsc(b, false)
+	}
 	e := xwEsc(val, false)
 	if w.whitespace && w.r.Chance(10) {
 		e = xwCharRef(e)
